@@ -45,6 +45,8 @@ THEOREMS = [
     "Verif.C13.F9_witness",
     "Verif.C13.cardano_chain_eq_implicit_partial",
     "Verif.C13.cubic_jac_eq_implicit_cardano",
+    "Verif.C13.twlc_distance_hasDerivAt",
+    "Verif.C13.efjc_distance_hasDerivAt",
 ]
 for _ns, _vars in (("OF", "Lp Lc St kT d"), ("WD", "Lp Lc kT f"), ("EF", "Lp Lc St kT d"), ("ED", "Lp Lc St kT f")):
     THEOREMS += [f"Verif.C13.{_ns}.row_{v}" for v in _vars.split()]
@@ -172,6 +174,41 @@ def collect_sols(tree, obj, x, p):
         F = float(np.asarray(obj._raw_call(np.array([x], dtype=float), np.asarray(p, dtype=float))).ravel()[0])
         return [F]
     raise ValueError(t)
+
+
+_SOLS = {}
+
+
+def sols_of(case, obj):
+    key = json_key(case)
+    if key not in _SOLS:
+        if len(_SOLS) > 5000:
+            _SOLS.clear()
+        try:
+            _SOLS[key] = collect_sols(case["tree"], obj, float(case["x"]), pvec(case, list(obj.parameter_names)))
+        except Exception:
+            _SOLS[key] = [float("nan")] * count_inv(case["tree"])
+    return _SOLS[key]
+
+
+def json_key(case):
+    import json
+
+    return json.dumps([case["tree"], case["x"], sorted(case["params"].items())])
+
+
+def spec_sols(tree, x, pd):
+    """the exact values of the inversions (bisection to machine precision), same order as collect_sols"""
+    t = tree[0]
+    if t == "base":
+        return []
+    if t == "add":
+        return spec_sols(tree[1], x, pd) + spec_sols(tree[2], x, pd)
+    if t == "off":
+        return spec_sols(tree[1], x - pd[f"{tree_name(tree[1])}/{indep_of(tree[1])}_offset"], pd)
+    sub = tree[1] if t == "inv" else ["base", "efjc_d" if t == "efjc_f" else "twlc_d", tree[1]]
+    F = bisect(lambda F_: spec_eval(sub, F_, pd) - x, *bracket(sub, pd))
+    return [F] + (spec_sols(sub, F, pd) if t == "inv" else [])
 
 
 def has_derivative(tree):
@@ -364,16 +401,22 @@ INV_REL = 1.0e-3  # through a numerical inversion (least_squares, tol 1e-8): the
 #                    solver's F, whose error (~1e-5 relative) is outside the property
 
 
+JUDGED = [0, 0]  # derivative entries handed to the oracle / of which abstained
+
+
 def judge(an, num, err, floor, loose=False, rel=None):
     """None = agree; 'skip' = numerical derivative did not converge; else text"""
+    JUDGED[0] += 1
     if not (math.isfinite(num) and math.isfinite(err)):
+        JUDGED[1] += 1
         return "skip"
     mag = max(abs(an), abs(num), floor)
     if err > 1.0e-7 * mag:
+        JUDGED[1] += 1
         return "skip"
     if not math.isfinite(an):
         return f"analytic value {an} is not finite where the numerical derivative is {num}"
-    if abs(an - num) > (INV_REL if loose else (rel or ORACLE_REL)) * mag + 10 * err:
+    if abs(an - num) > (rel or (INV_REL if loose else ORACLE_REL)) * mag + 10 * err:
         return f"analytic {an!r} vs numerical {num!r} (± {err:.1e})"
     return None
 
@@ -433,12 +476,19 @@ def impl(case):
             except Exception as e:
                 out.append(errname(e))
             return out
+        if k == "cubic":
+            from lumicks.pylake.fitting.detail import model_implementation as mi
+
+            a, b, c = (np.array([float(case[n])]) for n in "abc")
+            y = mi.calc_cubic_root(a, b, c, case["k"])
+            d = mi.calc_cubic_root_derivatives(a, b, c, case["k"])
+            return [fl_list([y[0], d[0][0], d[1][0], d[2][0]])]
         if k == "tree":
             obj = obj_of(case["tree"])
             names = list(obj.parameter_names)
             p = pvec(case, names)
             x = np.array([case["x"]], dtype=float)
-            out = [" ".join(names)]
+            out = [" ".join(names) + " | " + fl_list(sols_of(case, obj))]
             try:
                 j = obj.jacobian(x, p)
                 out.append(fl_list([np.asarray(r).ravel()[0] for r in np.asarray(j)]))
@@ -520,12 +570,11 @@ def ops(case):
         kind = MODEL_KIND.get(case["kind"], case["kind"])
         args = f"{kind} {fl(case['x'])} {fl_list(case['p'])}"
         return [f"c13.val {args}", f"c13.jac {args}", f"c13.der {args}"]
+    if k == "cubic":
+        return [f"c13.cubic {fl(case['a'])} {fl(case['b'])} {fl(case['c'])} {case['k']}"]
     if k == "tree":
         obj = obj_of(case["tree"])
-        try:
-            sols = collect_sols(case["tree"], obj, float(case["x"]), pvec(case, list(obj.parameter_names)))
-        except Exception:
-            sols = [float("nan")] * count_inv(case["tree"])
+        sols = sols_of(case, obj)
         head = [fl(case["x"]), fl_list(sols)] + assoc_tokens(case["params"])
         tail = tokens(case["tree"], obj)
         out = [" ".join(["c13.tree", w] + head + tail) for w in ("names", "jac")]
@@ -622,9 +671,17 @@ def agree(case, i, ia, ma):
                 a, b = parse_floats(ia), parse_floats(body)
                 return len(a) == len(b) and rows_close(a, b, case["p"], rel)
             return close(dec(ia), dec(body), rel)
+        if k == "cubic":
+            if ia.endswith("Error") or " " not in ma:
+                return ia == ma
+            head, body = ma.split(" ", 1)
+            amp = dec(head.split(":")[1])
+            rel = max(MODEL_REL, 1.0e-12 * amp) if math.isfinite(amp) else 1.0
+            a, b = parse_floats(ia), parse_floats(body)[:4]
+            return len(a) == 4 and all(close(u, v, rel, 1e-300) for u, v in zip(a, b))
         if k == "tree":
             if i == 0:
-                return ia == ma
+                return ia.split(" | ")[0] == ma
             rel = CUBIC_REL if any(l[1] in CUBIC for l in leaves(case["tree"])) else MODEL_REL
             if count_inv(case["tree"]):
                 rel = max(rel, 1.0e-7)
@@ -716,7 +773,7 @@ def oracle_(case, ia):
                 return None
             return oracle_tree(tree, float(case["x"]), pd, names, parse_floats(ia[1]), dec(ia[2]), case, rel=max(ORACLE_REL, 1.0e-12 * amp))
         if k == "tree":
-            names = ia[0].split(" ")
+            names = ia[0].split(" | ")[0].split(" ")
             if sorted(names) != sorted(case["params"].keys()):
                 return f"parameter-names: implementation has {names}, the leaves have {sorted(case['params'])}"
             if ia[1].endswith("Error"):
@@ -726,12 +783,70 @@ def oracle_(case, ia):
                 if ia[2].endswith("Error"):
                     return f"derivative-available: {ia[2]}"
                 der = dec(ia[2])
-            return oracle_tree(case["tree"], float(case["x"]), dict(case["params"]), names, parse_floats(ia[1]), der, case)
+            rel = None
+            if count_inv(case["tree"]):
+                # the analytic rule is evaluated at the F the numerical inversion returned; its error is outside the
+                # property: measure it against a bisection to machine precision and widen the tolerance accordingly
+                got = parse_floats(ia[0].split(" | ")[1])
+                exact = spec_sols(case["tree"], float(case["x"]), dict(case["params"]))
+                if len(got) != len(exact):
+                    return f"inversions: {len(got)} values for {len(exact)} inverse nodes"
+                worst = max([abs(a - b) / max(abs(b), 1e-300) if math.isfinite(a) else float("inf") for a, b in zip(got, exact)] + [0.0])
+                if not worst < 1.0e-2:
+                    case.setdefault("_skipped", []).append("inversion-error>1e-2")
+                    return None
+                rel = 1.0e-5 + 200.0 * worst
+                case["_inv_err"] = worst
+            return oracle_tree(case["tree"], float(case["x"]), dict(case["params"]), names, parse_floats(ia[1]), der, case, rel=rel)
+        if k == "cubic":
+            return oracle_cubic(case, ia)
         if k == "fit":
             return oracle_fit(case, ia)
     except NoBracket:
         case.setdefault("_skipped", []).append("no-bracket")
         return None
+    return None
+
+
+def raw_band_amp(a, b, c):
+    p_ = b - a * a / 3.0
+    q_ = 2.0 * a**3 / 27.0 - a * b / 3.0 + c
+    det = q_ * q_ / 4.0 + p_**3 / 27.0
+    if det == 0 or not math.isfinite(det):
+        return True, float("inf")
+    amp = (q_ * q_ / 4.0 + abs(p_) ** 3 / 27.0) / abs(det)
+    if det > 0:
+        s_ = math.sqrt(det)
+        t1, t2 = abs(s_ - 0.5 * q_), abs(-s_ - 0.5 * q_)
+        band = min(t1 ** (2.0 / 3.0), t2 ** (2.0 / 3.0), s_) < 3.0e-5
+        amp = max(amp, (abs(q_) * 0.5 + s_) / min(t1, t2) if min(t1, t2) > 0 else float("inf"))
+        return band, amp
+    if p_ >= 0:
+        return True, float("inf")
+    F = 3.0 * math.sqrt(3.0) * q_ / (2.0 * (-p_) ** 1.5)
+    return abs(F) > 1.0 - 3.0e-7, amp
+
+
+def oracle_cubic(case, ia):
+    """the three root derivatives against the implicit-function values -y^2/P'(y), -y/P'(y), -1/P'(y) at the root the
+    implementation returned (shares no formula with the Cardano / trigonometric chain rule)"""
+    if ia[0].endswith("Error"):
+        return f"cubic-available: {ia[0]}"
+    a, b, c = float(case["a"]), float(case["b"]), float(case["c"])
+    band, amp = raw_band_amp(a, b, c)
+    if band or amp > 1.0e6:
+        case.setdefault("_skipped", []).append("regularised-band" if band else "ill-conditioned-cubic")
+        return None
+    y, ya, yb, yc = parse_floats(ia[0])
+    P = ((y + a) * y + b) * y + c
+    dP = (3.0 * y + 2.0 * a) * y + b
+    scale = abs(y**3) + abs(a * y * y) + abs(b * y) + abs(c)
+    if not abs(P) <= 1.0e-9 * amp * scale:
+        return f"cubic-root: P(y) = {P!r} at the returned y = {y!r} (terms of size {scale:.3g})"
+    rel = max(1.0e-7, 1.0e-11 * amp)
+    for name, got, want in (("a", ya, -y * y / dP), ("b", yb, -y / dP), ("c", yc, -1.0 / dP)):
+        if not close(got, want, rel, 1e-300):
+            return f"cubic-d{name}: d y / d {name} = {got!r}, implicit differentiation gives {want!r} (root {case['k']}, y = {y!r})"
     return None
 
 
@@ -837,6 +952,8 @@ def nontrivial(case, ia):
         return case.get("stream") != "malformed" and not ia[1].endswith("Error")
     if k == "tree":
         return case["tree"][0] != "base"
+    if k == "cubic":
+        return True
     if k == "fit":
         return sum(len(m["data"]) for m in case["models"]) > 1 or any(d["trans"] for m in case["models"] for d in m["data"])
     return False
@@ -861,7 +978,7 @@ def inv_over_cubic(tree):
 
 def shrink(case):
     for c in shrink_(case):
-        c = {k: v for k, v in c.items() if k not in ("_class", "_skipped")}
+        c = {k: v for k, v in c.items() if k not in ("_class", "_skipped", "_inv_err")}
         c["_want_class"] = case.get("_want_class") or case.get("_class")
         yield c
 
@@ -1300,6 +1417,20 @@ def cases(tier, rng):
             continue
         yield {"stream": "random", "op": "base", "kind": kind, "x": float(x), "p": [pd[n] for n in leaf_names(kind, "m")], "subseed": i}
 
+    # ---- raw cubics: all three root indices, both branches (from chosen roots, so that the branch is controlled)
+    N = 300 if quick else 6000
+    r = rng.fork("c13-cubic")
+    for i in range(N):
+        sub = r.fork(i)
+        sc = sub.loguniform(0.1, 1000.0)
+        if sub.chance(0.5):  # three real roots -> det < 0 (trigonometric branch)
+            rs = [sub.uniform(-1.0, 1.0) * sc for _ in range(3)]
+            a_, b_, c_ = -(rs[0] + rs[1] + rs[2]), rs[0] * rs[1] + rs[0] * rs[2] + rs[1] * rs[2], -rs[0] * rs[1] * rs[2]
+        else:  # one real root and a complex pair -> det > 0 (Cardano branch)
+            r0, re, im = sub.uniform(-1.0, 1.0) * sc, sub.uniform(-1.0, 1.0) * sc, sub.loguniform(1e-3, 1.0) * sc
+            a_, b_, c_ = -(r0 + 2 * re), 2 * r0 * re + re * re + im * im, -r0 * (re * re + im * im)
+        yield {"stream": "random", "op": "cubic", "a": float(a_), "b": float(b_), "c": float(c_), "k": sub.randint(0, 2), "subseed": i}
+
     # ---- seeded random compositions
     N = 120 if quick else 2500
     r = rng.fork("c13-tree")
@@ -1334,6 +1465,9 @@ def extra_coverage(results):
         kinds[key] = kinds.get(key, 0) + 1
         for s in c.get("_skipped", []):
             skipped[s] = skipped.get(s, 0) + 1
+        if c["op"] == "cubic" and " " in r["model"][0]:
+            b = "cubic-root%d/" % c["k"] + r["model"][0].split(" ")[0].split(":")[0]
+            branches[b] = branches.get(b, 0) + 1
         if c["op"] == "base" and len(r["model"]) > 1 and " " in r["model"][1]:
             b = r["model"][1].split(" ")[0].split(":")[0]
             branches[b] = branches.get(b, 0) + 1
@@ -1356,6 +1490,7 @@ def extra_coverage(results):
         "case_kinds": kinds,
         "cubic_branch_and_band": branches,
         "cubic_branch_legend": "C = Cardano chain rule (det > 0), T = trigonometric (det <= 0); R = inside the regularised band, N = outside; '-' = closed form",
+        "oracle_derivative_entries": {"compared_or_abstained": JUDGED[0], "abstained_not_converged": JUDGED[1]},
         "oracle_abstentions": skipped,
         "oracle_abstention_note": "the numerical derivative is used only when its Richardson table converges (error estimate < 1e-7 of the value); entries where it does not (kink of the twistable model, regularised band, non-finite values) are dropped from the oracle, not from the model comparison",
         "tree_shapes": tree_shapes,
